@@ -239,7 +239,7 @@ prop('C12',
      scenarios=lambda tier: [sc('isolation'), sc('conclogs'), sc('cfgmap'), sc('lib'), sc('bastion', n=10 if tier == 'quick' else 100), sc('dist', n=150 if tier == 'quick' else 2000), sc('httpapi', n=10 if tier == 'quick' else 100)],
      diverge={'ISO': None, 'CA': None, 'U': {'accept', 'post', 'oracle'}, 'H': {'status', 'post'}, 'DS': {'puts'}, 'A': None, 'LIN': None},
      nontrivial_line=lambda k, line: k in ('ISO', 'CA'),
-     rule='per-log histories (honest chains with fork attempts, other logs\' checkpoints under this ID, stale requests; 2..5 logs of which three share a key) are run interleaved (random order-preserving merge) and each alone on fresh witnesses, outcomes and final text compared; controlled interleavings (depth-first over storage-call schedules, in-memory and SQLite) of requests naming two different logs, each log's projection of the history having to be explained by that log alone and no request failing because of a request naming another log; synthetic configurations through AsLogMap/config.NewLog (duplicate origins, same key name with different keys, ECDSA and malformed keys) followed by cross-key submissions to the witness built from that map; IDs observed at the bastion lookup, the distributor path and the HTTP route compared with hex(sha256("o:"+origin)) computed in Lean',
+     rule='per-log histories (honest chains with fork attempts, other logs\' checkpoints under this ID, stale requests; 2..5 logs of which three share a key) are run interleaved (random order-preserving merge) and each alone on fresh witnesses, outcomes and final text compared; controlled interleavings (depth-first over storage-call schedules, in-memory and SQLite) of requests naming two different logs, each log\'s projection of the history having to be explained by that log alone and no request failing because of a request naming another log; synthetic configurations through AsLogMap/config.NewLog (duplicate origins, same key name with different keys, ECDSA and malformed keys) followed by cross-key submissions to the witness built from that map; IDs observed at the bastion lookup, the distributor path and the HTTP route compared with hex(sha256("o:"+origin)) computed in Lean',
      exhaustive=False)
 
 prop('C16',
